@@ -163,6 +163,12 @@ package nsqlookupd
 //@   ensures[complete-exact] key != "*" && subkey != "*" && gk.Category == category && gk.Key == key && gk.SubKey == subkey ==>
 //@        forall id string :: {atunlock(r.registrationMap[gk][id])} atunlock(hasProd(r, gk, id)) ==>
 //@        (exists j int :: {result[j]} 0 <= j && j < len(result) && result[j] == atunlock(r.registrationMap[gk][id]))
+//   (round 5, area G) COMPLETE direction, wildcard query (the open item of round 3; visited(k, 0) / nested map ranges): every peer that has a
+//   producer filed under SOME registration matching the query (at release of the read lock) is represented in the answer - by peer id
+//   (one entry per peer: [one-entry-per-peer]; the entry is a producer of that peer under a matching key: [sound]).
+//@   ensures[complete-wildcard] key == "*" || subkey == "*" ==>
+//@        forall k Registration, id string :: {atunlock(r.registrationMap[k][id])} atunlock(hasProd(r, k, id)) && matches(k, category, key, subkey) ==>
+//@        (exists j int :: {result[j]} 0 <= j && j < len(result) && result[j].peerInfo.id == id)
 //@   ensures[fresh] len(result) == 0 || fresh(result)
 //@   modifies r.registrationMap, mapstore(map[Registration]ProducerMap), mapstore(ProducerMap)
 //@   onreturn mFound := result
@@ -179,6 +185,9 @@ package nsqlookupd
 //@     invariant[sound] forall j int :: {retProducers[j]} 0 <= j && j < len(retProducers) ==>
 //@        (exists k2 Registration :: {r.registrationMap[k2]} matches(k2, category, key, subkey) && mProdOf(r, k2, retProducers[j]))
 //@     invariant[distinct] forall j1 int, j2 int :: {retProducers[j1], retProducers[j2]} 0 <= j1 && j1 < j2 && j2 < len(retProducers) ==> retProducers[j1].peerInfo.id != retProducers[j2].peerInfo.id
+//     (round 5, area G) every id noted in `results` has its producer in the answer; every producer of every matching registration visited so far is noted
+//@     invariant[listed] forall id string :: {results[id]} has(results, id) ==> (exists j int :: {retProducers[j]} 0 <= j && j < len(retProducers) && retProducers[j].peerInfo.id == id)
+//@     invariant[complete] forall k2 Registration, id string :: {r.registrationMap[k2][id]} visited(k2) && matches(k2, category, key, subkey) && has(r.registrationMap[k2], id) ==> has(results, id)
 //@   loop 1
 //@     invariant fresh(results) && ((len(retProducers) == 0 && cap(retProducers) == 0) || fresh(retProducers))
 //@     invariant[cur] hasKey(r, k) && matches(k, category, key, subkey) && producers == r.registrationMap[k]
@@ -186,3 +195,11 @@ package nsqlookupd
 //@     invariant[sound] forall j int :: {retProducers[j]} 0 <= j && j < len(retProducers) ==>
 //@        (exists k2 Registration :: {r.registrationMap[k2]} matches(k2, category, key, subkey) && mProdOf(r, k2, retProducers[j]))
 //@     invariant[distinct] forall j1 int, j2 int :: {retProducers[j1], retProducers[j2]} 0 <= j1 && j1 < j2 && j2 < len(retProducers) ==> retProducers[j1].peerInfo.id != retProducers[j2].peerInfo.id
+//     (round 5, area G) the outer facts restated for the inner range: registrations visited BEFORE the current one are done, of the current one the
+//     producers visited so far are noted
+//     (helper: the producer handled last is represented - gives the witness of [listed] for the newest id without a search)
+//@     invariant[last-handled] (exists id0 string :: {producers[id0]} visited(id0)) ==> (len(retProducers) > 0 && retProducers[len(retProducers) - 1].peerInfo.id == producer.peerInfo.id) ||
+//@        (exists j int :: {retProducers[j]} 0 <= j && j < len(retProducers) && retProducers[j].peerInfo.id == producer.peerInfo.id)
+//@     invariant[listed] forall id string :: {results[id]} has(results, id) ==> (exists j int :: {retProducers[j]} 0 <= j && j < len(retProducers) && retProducers[j].peerInfo.id == id)
+//@     invariant[complete-earlier] forall k2 Registration, id string :: {r.registrationMap[k2][id]} visited(k2, 0) && k2 != k && matches(k2, category, key, subkey) && has(r.registrationMap[k2], id) ==> has(results, id)
+//@     invariant[complete-current] forall id string :: {producers[id]} visited(id) ==> has(results, id)
